@@ -63,8 +63,8 @@ class RedisDriver(BaseDriver):
             id_ = filt.pop('id')
             db_record = self._client.hgetall(self._make_record_key(collection, id_))
 
-            # Apply filter criteria
-            if db_record and self._filter_matches(db_record, filt):
+            # Apply filter criteria; a record exists if its id is in the set (a record without fields has no hash)
+            if self._client.sismember(self._make_set_key(collection), id_) and self._filter_matches(db_record, filt):
                 db_record['id'] = id_
                 db_records.append(db_record)
         else:  # no single specific id in filt
@@ -135,8 +135,10 @@ class RedisDriver(BaseDriver):
 
             # Retrieve the db record
             db_record = self._client.hgetall(key)
-            if db_record and self._filter_matches(db_record, filt):
-                self._client.hset(key, mapping=db_record_part)
+            if self._client.sismember(self._make_set_key(collection), id_) and self._filter_matches(db_record, filt):
+                if db_record_part:
+                    self._client.hset(key, mapping=db_record_part)
+
                 modified_count = 1
 
         else:  # no single specific id in filt
@@ -155,9 +157,6 @@ class RedisDriver(BaseDriver):
                 # Actually update the record
                 if db_record_part:
                     self._client.hset(key, mapping=db_record_part)
-
-                else:
-                    self._client.delete(key)
 
                 modified_count += 1
 
@@ -193,15 +192,14 @@ class RedisDriver(BaseDriver):
             filt = dict(filt)
             id_ = filt.pop('id')
             key = self._make_record_key(collection, id_)
+            set_key = self._make_set_key(collection)
             db_record = self._client.hgetall(key)
 
-            # Actually remove the record
-            if db_record and self._filter_matches(db_record, filt):
+            # Actually remove the record, together with its id from set
+            if self._client.sismember(set_key, id_) and self._filter_matches(db_record, filt):
                 self._client.delete(key)
+                self._client.srem(set_key, id_)
                 removed_count = 1
-
-            # Remove the id from set
-            self._client.srem(self._make_set_key(collection), id_)
 
         else:  # no single specific id in filt
             ids_to_remove = set()
@@ -271,7 +269,11 @@ class RedisDriver(BaseDriver):
             return record_value == filt_value
 
     def _get_next_id(self, collection: str) -> Id:
-        return str(self._client.incr(self._make_sequence_key(collection)))
+        # Skip ids that are already in use (e.g. given explicitly upon insert)
+        while True:
+            id_ = str(self._client.incr(self._make_sequence_key(collection)))
+            if not self._client.sismember(self._make_set_key(collection), id_):
+                return id_
 
     @classmethod
     def _record_from_db(cls, db_record: GenericJSONDict, fields: Optional[set[str]] = None) -> Record:
